@@ -1,6 +1,7 @@
 #!/venv/bin/python
 """False-alarm test: apply a behaviour-preserving refactoring of /repo in a scratch worktree and run every
-registered quick check against it; all must exit 0.   tools/refactest.py <dir-with-patch.diff> [Cxx,Cyy]"""
+registered quick check against it; all must exit 0.   tools/refactest.py <dir-with-patch.diff> [Cxx,Cyy]
+   The corpus is /verif/refactorings/<name>/{patch.diff,meta.json} (16 from four refactoring agents, 13 from docs/AUDIT-3.md)."""
 import json, os, subprocess, sys, time
 VERIF = os.path.dirname(os.path.dirname(os.path.abspath(__file__)))
 
